@@ -14,6 +14,10 @@ u.extract(X, 'enum Class', keep_derives={'Clone', 'Copy', 'PartialEq', 'Eq'}, wr
 u.spec('spec.rs')
 u.trusted += [
     'the psABI rules as transcribed in units/abi/spec.rs (MEMORY, X87 and vector classes are not represented in the code and not in the spec)',
+    'scalars are aligned to min(size, 8) (C17), so a scalar occupies the eightbyte of its first byte, plus the next one when it is wider than 8 bytes; the spec `leaf` states it that way',
+    'domain: the layout tables know the type and all its parts (lk), types of exactly 64 bytes are excluded (a zero-sized member at offset 64 would index past the class array), pointers are 8 bytes, and no eightbyte of an aggregate of at most 16 bytes is pure padding (no_padding_eightbyte; true of C layouts, not proved)',
+    'case split: classify_eight_byte is verified once per match arm, the other arms cut by assume(false) in that copy (reported as case-split-cut); the copies together cover every path',
+    '`(*ty).clone()` returns an equal value; enum_layout() is None for an optional pointer (table assumption T4)',
     'tinyvec::ArrayVec, u16::next_power_of_two, Type::int_with_byte_size as specified in shims/verus/abi_deps.rs and clif_types.rs',
     'Cranelift assigns the registers of the host calling convention to a signature whose parameter types are the ones computed here (to_cl is not under contract)',
 ]
@@ -156,15 +160,6 @@ u.extract('crates/codegen/src/convert.rs', 'impl FinalTy::fn into_real_type', wr
     ensures self is Number ==> res == Some(self->Number_0.ty), self is Pointer ==> res == Some(self->Pointer_0),
         !(self is Number) && !(self is Pointer) ==> res is None
 ''')
-# classify_arg as a whole: stub for now (its parts are under contract above)
-u.raw('''
-pub uninterp spec fn classify_spec(ty: Ty) -> Option<Seq<Class>>;
-#[verifier::external_body]
-pub fn classify_arg(ty: Intern<Ty>) -> (r: Option<[Class; 8]>)
-    ensures r is Some <==> classify_spec(*ty.0) is Some, r is Some ==> r->0@ == classify_spec(*ty.0)->0 && classes_ok(*ty.0, r->0@)
-{ unimplemented!() }
-''')
-
 # the closure `push_direct` captures nothing: its body is verified as a function of the same
 # name (R5) and its definition is removed from fn_ty_to_abi, whose calls then reach that function
 u.extract(X, 'fn fn_ty_to_abi', key='push_direct',
@@ -189,7 +184,9 @@ TRYINTO = Rewrite('R4', r'idx\.try_into\(\)\.unwrap\(\)', 'usize_to_u16(idx)', c
 u.extract(X, 'fn fn_ty_to_abi', rewrites=[SIG, NOCLOSURE, TRYINTO], desugar_for={0: ('ai', 'enum_ref'), 1: ('ci', 'val')},
           contract='''
     requires
-        args@.len() <= 0xffff,
+        args@.len() <= 0xffff, ptr_bytes() == 8,
+        !ty_zero_sized(*ret.0) ==> classifiable(*ret.0),
+        forall|i: int| 0 <= i < args@.len() && !ty_zero_sized(*(#[trigger] args@[i]).ty.0) ==> classifiable(*args@[i].ty.0),
         !ty_zero_sized(*ret.0) && !ty_is_aggregate(*ret.0) ==> has_machine_type(*ret.0),
         forall|i: int| 0 <= i < args@.len() && !ty_zero_sized(*(#[trigger] args@[i]).ty.0) && !ty_is_aggregate(*args@[i].ty.0) ==> has_machine_type(*args@[i].ty.0),
         forall|i: int| 0 <= i < args@.len() ==> stride_of(*(#[trigger] args@[i]).ty.0) <= 0x4000_0000,
@@ -216,7 +213,8 @@ u.extract(X, 'fn fn_ty_to_abi', rewrites=[SIG, NOCLOSURE, TRYINTO], desugar_for=
     ('push_direct(arg.ty, &classes, &mut sig.args, usize_to_u16(idx))', 'before', 'let ghost v0 = sig.args@; '),
 ], loops={0: '''
         invariant
-            0 <= ai <= it_ai@.len(), it_ai@ == args@, args@.len() <= 0xffff,
+            0 <= ai <= it_ai@.len(), it_ai@ == args@, args@.len() <= 0xffff, ptr_bytes() == 8,
+            forall|i: int| 0 <= i < args@.len() && !ty_zero_sized(*(#[trigger] args@[i]).ty.0) ==> classifiable(*args@[i].ty.0),
             forall|i: int| 0 <= i < args@.len() && !ty_zero_sized(*(#[trigger] args@[i]).ty.0) && !ty_is_aggregate(*args@[i].ty.0) ==> has_machine_type(*args@[i].ty.0),
             forall|i: int| 0 <= i < args@.len() ==> stride_of(*(#[trigger] args@[i]).ty.0) <= 0x4000_0000,
             ret_view(sig.ret) == pass_ret(*ret.0).0,
@@ -261,7 +259,172 @@ MUTANTS = [
             int_regs = int_regs.saturating_sub(1);
             continue;
         }""", 'violation'),
+    # classification of fields
+    (X, 'Ty::Float(_) => classes[offset / 8] = classes[offset / 8].merge_eigthbyte(Sse),', 'Ty::Float(_) => classes[offset / 8] = classes[offset / 8].merge_eigthbyte(Int),', 'violation'),
+    (X, '            | Ty::Char\n', '', 'violation'),
+    (X, 'offset + (idx * sub_ty.stride() as u64) as usize,', 'offset + (idx * sub_ty.size() as u64) as usize,', 'violation'),
+    (X, 'classify_eight_byte(members[field].ty, classes, offset + field_off as usize)', 'classify_eight_byte(members[field].ty, classes, offset)', 'violation'),
+    (X, '                classify_eight_byte(error_ty, classes, offset);\n', '', 'violation'),
+    (X, 'classes[offset / 8 + 1] = classes[offset / 8 + 1].merge_eigthbyte(Int)\n            }', 'classes[offset / 8 + 1] = classes[offset / 8 + 1].merge_eigthbyte(Sse)\n            }', 'violation'),
+    (X, 'Ty::EnumVariant { sub_ty, .. } => classify_eight_byte(sub_ty, classes, offset),', 'Ty::EnumVariant { sub_ty, .. } => classify_eight_byte(sub_ty, classes, offset + 8),', 'violation'),
+    (X, '    if n > 8 {\n        return None;', '    if n > 4 {\n        return None;', 'ok'),
     # harmless
     (X, 'println!("no class");', 'println!("no class!");', 'ok'),
     (X, '// (f) Otherwise class SSE is used\n            _ => Class::Sse,', '// (f) Otherwise class SSE is used\n            (_, _) => Class::Sse,', 'ok'),
 ]
+
+# ---- classification of fields (classify_eight_byte, nested in classify_arg) -------------------
+CLONE = Rewrite('R7', r'match \(\*ty\)\.clone\(\) \{', 'match ty_clone(&ty) {', count=1,
+                why='`(*ty).clone()` (Deref + Clone of Ty) -> shim returning an equal value (ASSUMED: clone is the identity)')
+u.raw('''
+#[verifier::external_body]
+pub fn ty_clone(t: &Intern<Ty>) -> (r: Ty) ensures r == *t.0 { unimplemented!() }
+''')
+STEP = '''assert forall|k: int| 0 <= k < 8 implies #[trigger] classes@[k] == psabi_merge(c0[k], eb_parts(*ty.0, (%(i)s + 1) as nat, offset as int, k)) by {
+                            assert(cp[k] == psabi_merge(c0[k], eb_parts(*ty.0, %(i)s as nat, offset as int, k)));
+                            lemma_merge_laws(c0[k], eb_parts(*ty.0, %(i)s as nat, offset as int, k), %(part)s);
+                        }'''
+DEFAULT_ARM = Rewrite('R2', r'_ => \{\}', '_ => { proof { lemma_cls_other(*ty.0, offset as int); } }', count=1, why='proof hint placed in the empty default arm (ghost code only)')
+u.extract(X, 'fn classify_arg::fn classify_eight_byte', rewrites=[CLONE, DEFAULT_ARM],
+          desugar_for={1: ('fi', 'enum_ref'), 2: ('vi', 'val')},
+          case_split=['proof { lemma_cls_scalar(*ty.0, offset as int); }', 'proof { lemma_cls_float(*ty.0, offset as int); }',
+                      ['proof { lemma_cls_array(*ty.0, offset as int); }', 'proof { lemma_cls_array_step(*ty.0, offset as int, idx as nat); }'],
+                      'proof { lemma_cls_two_words(*ty.0, offset as int); }',
+                      'proof { lemma_cls_wrapper(*ty.0, offset as int); }',
+                      ['proof { lemma_cls_struct(*ty.0, offset as int); }', 'proof { lemma_cls_struct_step(*ty.0, offset as int, fi as int); }'],
+                      ['proof { lemma_cls_enum(*ty.0, offset as int); }', 'proof { lemma_cls_enum_step(*ty.0, offset as int, vi as int); }'],
+                      'proof { lemma_eu_layout(*ty.0); }',
+                      'proof { lemma_opt_layout(*ty.0); if !has_enum_layout(*ty.0) { lemma_cls_optional_ptr(*ty.0, offset as int); } }',
+                      'proof { lemma_cls_other(*ty.0, offset as int); }'],
+          contract="""
+    requires
+        lk(*ty.0), offset + tsize(*ty.0) <= 63, ptr_bytes() == 8,
+    ensures
+        forall|k: int| 0 <= k < 8 ==> #[trigger] final(classes)@[k] == psabi_merge(old(classes)@[k], eb_class(*ty.0, offset as int, k)),
+    decreases *ty.0
+""",
+          inserts=[('@body_start', 'after', ' let ghost c0 = classes@; '),
+                   ('@arm:| Ty::File(_)', 'after', ' proof { lemma_cls_scalar(*ty.0, offset as int); } '),
+                   ('@arm:Ty::Float(_)', 'after', ' proof { lemma_cls_float(*ty.0, offset as int); } '),
+                   ('@arm:Ty::ConcreteArray { sub_ty, size, .. } | Ty::AnonArray { size, sub_ty }', 'after', ' proof { lemma_cls_array(*ty.0, offset as int); } '),
+                   ('@arm:Ty::Slice { .. } | Ty::RawSlice | Ty::Any', 'after', ' proof { lemma_cls_two_words(*ty.0, offset as int); } '),
+                   ('@arm:Ty::Distinct { sub_ty, .. }', 'after', ' proof { lemma_cls_wrapper(*ty.0, offset as int); } '),
+                   ('@arm:Ty::EnumVariant { sub_ty, .. }', 'after', ' proof { lemma_cls_wrapper(*ty.0, offset as int); } '),
+                   ('@arm:Ty::ConcreteStruct { members, .. } | Ty::AnonStruct { members }', 'after', ' proof { lemma_cls_struct(*ty.0, offset as int); } '),
+                   ('@arm:Ty::Enum { variants, .. }', 'after', ' let ghost mut c2 = classes@; proof { lemma_cls_enum(*ty.0, offset as int); } '),
+                   ('@arm:payload_ty,\n            }', 'after', ' let ghost mut c1 = classes@; let ghost mut c2 = classes@; proof { lemma_eu_layout(*ty.0); } '),
+                   ('@arm:Ty::Optional { sub_ty }', 'after', ' let ghost mut c1 = classes@; proof { lemma_opt_layout(*ty.0); if !has_enum_layout(*ty.0) { lemma_cls_optional_ptr(*ty.0, offset as int); } } '),
+                   # the three loops: snapshot at the head of the body, the step at its end
+                   ('@loop_start:0', 'after', ' let ghost cp = classes@; proof { lemma_cls_array_step(*ty.0, offset as int, idx as nat); } '),
+                   ('@loop_body_end:0', 'after', """proof {
+                        %s
+                    }""" % (STEP % dict(i='idx', part='eb_class(*sub_ty.0, offset + idx * stride_of(*sub_ty.0), k)'))),
+                   ('@loop_start:1', 'after', ' let ghost cp = classes@; proof { lemma_cls_struct_step(*ty.0, offset as int, fi as int); } '),
+                   ('@loop_body_end:1', 'after', """proof {
+                        %s
+                    }""" % (STEP % dict(i='(fi - 1)', part='eb_class(*members@[fi - 1].ty.0, offset + tstruct(*ty.0).offsets[fi - 1], k)'))),
+                   ('@loop_start:2', 'after', ' let ghost cp = classes@; proof { lemma_cls_enum_step(*ty.0, offset as int, vi as int); } '),
+                   ('@loop_body_end:2', 'after', """proof {
+                        %s
+                    }""" % (STEP % dict(i='(vi - 1)', part='eb_class(*it_vi@[vi - 1].0, offset as int, k)'))),
+                   # Enum: the tag store after the loop
+                   ('@loop_end:2', 'after', ' proof { c2 = classes@; } '),
+                   ('@arm_end:Ty::Enum { variants, .. }', 'after', """proof {
+                    assert(classes@ =~= c2.update((discrim_offset / 8) as int, psabi_merge(c2[(discrim_offset / 8) as int], Class::Int)));
+                    lemma_tag_store(c2, classes@, *ty.0, offset as int, (discrim_offset / 8) as int);
+                    assert forall|k: int| 0 <= k < 8 implies #[trigger] classes@[k] == psabi_merge(c0[k], eb_class(*ty.0, offset as int, k)) by {
+                        assert(c2[k] == psabi_merge(c0[k], eb_parts(*ty.0, variants_of(*ty.0).len(), offset as int, k)));
+                        lemma_merge_laws(c0[k], eb_parts(*ty.0, variants_of(*ty.0).len(), offset as int, k), tag_class(*ty.0, offset as int, k));
+                    }
+                }"""),
+                   # ErrorUnion: two recursive calls, then the tag store
+                   ('?@after_stmt:classify_eight_byte(payload_ty', 'after', ' proof { c1 = classes@; } '),
+                   ('?@after_stmt:classify_eight_byte(error_ty', 'after', ' proof { c2 = classes@; } '),
+                   ('@arm_end:payload_ty,\n            }', 'after', """proof {
+                    assert(classes@ =~= c2.update((discrim_offset / 8) as int, psabi_merge(c2[(discrim_offset / 8) as int], Class::Int)));
+                    lemma_tag_store(c2, classes@, *ty.0, offset as int, (discrim_offset / 8) as int);
+                    assert forall|k: int| 0 <= k < 8 implies #[trigger] classes@[k] == psabi_merge(c0[k], eb_class(*ty.0, offset as int, k)) by {
+                        let p = eb_class(*payload_ty.0, offset as int, k); let e = eb_class(*error_ty.0, offset as int, k);
+                        assert(c1[k] == psabi_merge(c0[k], p));
+                        assert(c2[k] == psabi_merge(c1[k], e));
+                        lemma_eu_class(*ty.0, offset as int, k);
+                        lemma_merge4(c0[k], p, e, tag_class(*ty.0, offset as int, k));
+                    }
+                }"""),
+                   # Optional with a tag byte: one recursive call, then the tag store
+                   ('?@after_stmt:classify_eight_byte(sub_ty, classes, offset);', 'after', ' proof { c1 = classes@; } '),
+                   ('@arm_end:Ty::Optional { sub_ty }', 'after', """proof {
+                    if has_enum_layout(*ty.0) {
+                        let j = (offset + tenum(*ty.0).discriminant_offset) / 8;
+                        assert(classes@ =~= c1.update(j, psabi_merge(c1[j], Class::Int)));
+                        lemma_tag_store(c1, classes@, *ty.0, offset as int, j);
+                        assert forall|k: int| 0 <= k < 8 implies #[trigger] classes@[k] == psabi_merge(c0[k], eb_class(*ty.0, offset as int, k)) by {
+                            assert(c1[k] == psabi_merge(c0[k], eb_class(*sub_ty.0, offset as int, k)));
+                            lemma_opt_class(*ty.0, offset as int, k);
+                            lemma_merge_laws(c0[k], eb_class(*sub_ty.0, offset as int, k), tag_class(*ty.0, offset as int, k));
+                        }
+                    }
+                }"""),
+                   ],
+          loops={0: ('it', """
+                        invariant
+                            *ty.0 == (Ty::ConcreteArray { size, sub_ty }) || *ty.0 == (Ty::AnonArray { size, sub_ty }),
+                            lk(*ty.0), lk(*sub_ty.0), offset + tsize(*ty.0) <= 63, ptr_bytes() == 8,
+                            tsize(*ty.0) == size as nat * stride_of(*sub_ty.0), tsize(*sub_ty.0) <= stride_of(*sub_ty.0),
+                            forall|k: int| 0 <= k < 8 ==> #[trigger] classes@[k] == psabi_merge(c0[k], eb_parts(*ty.0, idx as nat, offset as int, k)),
+"""), 1: """
+                    invariant
+                        0 <= fi <= it_fi@.len(), it_fi@.len() == members@.len(),
+                        (*ty.0 is ConcreteStruct && (*ty.0)->ConcreteStruct_members == members) || (*ty.0 is AnonStruct && (*ty.0)->AnonStruct_members == members),
+                        lk(*ty.0), offset + tsize(*ty.0) <= 63, ptr_bytes() == 8,
+                        forall|j: int| 0 <= j < it_fi@.len() ==> #[trigger] it_fi@[j] as nat == tstruct(*ty.0).offsets[j],
+                        forall|k: int| 0 <= k < 8 ==> #[trigger] classes@[k] == psabi_merge(c0[k], eb_parts(*ty.0, fi as nat, offset as int, k)),
+                    decreases it_fi@.len() - fi
+""", 2: """
+                    invariant
+                        0 <= vi <= it_vi@.len(), *ty.0 is Enum, (*ty.0)->Enum_variants == it_vi,
+                        lk(*ty.0), offset + tsize(*ty.0) <= 63, ptr_bytes() == 8, tenum(*ty.0).discriminant_offset + 1 == tsize(*ty.0),
+                        forall|k: int| 0 <= k < 8 ==> #[trigger] classes@[k] == psabi_merge(c0[k], eb_parts(*ty.0, vi as nat, offset as int, k)),
+                    decreases it_vi@.len() - vi
+"""})
+
+# ---- classify_arg as a whole --------------------------------------------------------------------
+NONEST = Rewrite('R5', r'    fn classify_eight_byte\(ty: Intern<Ty>, classes: &mut \[Class; 8\], offset: usize\) \{[\s\S]*?\n    \}\n', '', count=1,
+                 why='nested fn classify_eight_byte hoisted: it is verified as a function of its own (above), the calls reach it')
+DIVCEIL = Rewrite('R4', r'ty\.size\(\)\.div_ceil\(8\)', 'u32_div_ceil(ty.size(), 8)', count=1, why='`u32::div_ceil` -> shim with its documented meaning')
+u.raw('''
+// "Calculates the quotient of self and rhs, rounding the result towards positive infinity."
+pub fn u32_div_ceil(x: u32, d: u32) -> (r: u32)
+    requires 0 < d <= 0xffff, x <= 0xffff_0000
+    ensures r == (x + d - 1) / (d as int)
+{ (x + (d - 1)) / d }
+''')
+u.extract(X, 'fn classify_arg', rewrites=[NONEST, DIVCEIL, ANY],
+          contract='''
+    requires classifiable(*ty.0), ptr_bytes() == 8,
+    ensures
+        res is Some <==> classify_spec(*ty.0) is Some,
+        res is Some ==> res->0@ == classify_spec(*ty.0)->0 && classes_ok(*ty.0, res->0@),
+''',
+          inserts=[('@after_stmt:classify_eight_byte(ty, &mut classes, 0)', 'after', '''
+    let ghost c0 = classes@;
+    proof {
+        assert forall|k: int| 0 <= k < 8 implies #[trigger] c0[k] == eb_class(*ty.0, 0, k) && scalar_class(c0[k]) by { lemma_eb_scalar(*ty.0, 0, k); }
+        assert(n as int == (tsize(*ty.0) + 7) / 8);
+        assert(n <= 2 <==> tsize(*ty.0) <= 16);
+        assert(scalar_class(c0[1]));
+    }
+'''),
+                   ('@after_stmt:let mut classes =', 'after', ' proof { assert forall|k: int| 0 <= k < 8 implies #[trigger] classes@[k] == Class::NoClass by {} } '),
+                   ('while i != n && classes[i] == Class::SseUp', 'before', 'let ghost i0 = i; '),
+                   ('@loop_end:0', 'after', '''
+        proof { assert(classes@ =~= Seq::new(8, |k: int| eb_class(*ty.0, 0, k))); }
+''')],
+          loops={0: '''
+            invariant
+                i <= n <= 2, classes@ == c0, forall|k: int| 0 <= k < 8 ==> scalar_class(#[trigger] c0[k]),
+            decreases n - i
+''', 1: '''
+                    invariant i0 <= i <= n <= 2, classes@ == c0, forall|k: int| 0 <= k < 8 ==> scalar_class(#[trigger] c0[k]),
+                    decreases n - i
+'''})
